@@ -234,6 +234,35 @@ func classOfRecord(raw json.RawMessage) (cls string, r rec) {
 	return "bytes", r
 }
 
+// minimalFatalClass: the canonical class of a fatal crash is the smallest subset of the record's faults that
+// kills a worker in the same function (each subset is tried in its own child process).
+func minimalFatalClass(cmd string, r rec, fn, cls string) string {
+	fs := r.faults()
+	if r.Fam != "event" || len(fs) == 0 {
+		return cls
+	}
+	for _, sub := range properSubsets(fs) {
+		r2 := r
+		r2.P1, r2.K1, r2.C1, r2.P2, r2.K2, r2.C2 = "none", "none", "none", "none", "none", "none"
+		if len(sub) > 0 {
+			r2.P1, r2.K1, r2.C1 = sub[0].Path, sub[0].Kind, sub[0].Cls
+		}
+		r2.PV = "may"
+		b, err := json.Marshal(r2)
+		if err != nil {
+			return cls
+		}
+		out := make([]hx.Result, 1)
+		cr := runChild(cmd, []json.RawMessage{b}, out, 300*time.Second)
+		if cr.err == nil && cr.died {
+			if fn2, _ := fatalFunc(cr.stderr); fn2 == fn {
+				return classKey(sub)
+			}
+		}
+	}
+	return cls
+}
+
 // supervise runs cmd's worker over all records of a.In in child processes and prints one result per record.
 func supervise(a *hx.Args, cmd string) error {
 	recs, err := hx.ReadRecords(a.In)
@@ -310,6 +339,7 @@ func superviseRecords(recs []json.RawMessage, cmd string, par int) ([]hx.Result,
 					if cr.died {
 						fn, reason := fatalFunc(cr.stderr)
 						cls, r := classOfRecord(recs[from])
+						cls = minimalFatalClass(cmd, r, fn, cls)
 						results[from] = hx.Result{OK: false, Key: "C18/fatal/" + fn + "/" + cls, Panic: reason,
 							NT:   fmt.Sprintf("%s|%s|%s|%s|fatal", r.Fam, r.Type, cls, strings.Join(r.Ops, ">")),
 							What: fmt.Sprintf("the process died (%s) in %s while executing pipeline %v of room version %s on input class %s; this cannot be recovered by the caller\n%s", reason, fn, r.Ops, r.Ver, cls, cr.stderr)}
